@@ -5,6 +5,7 @@ import (
 	"runtime/debug"
 	"strconv"
 	"strings"
+	"sync"
 
 	"verif/simrt"
 )
@@ -13,7 +14,7 @@ import (
 type SyncEvent struct {
 	Thread string // spawn path: "0" root, "0.0" first Fork of root, "0.1" second, "0.0.0" ...
 	Kind   string // "fork" | "acquire" | "release" | "wg-add" | "wg-wait" | "exit"
-	Obj    int    // fork: index of the child among this thread's forks; acquire/release: ordinal of the lock, wg-*: ordinal of the waitgroup, each by first appearance in the trace; exit: 0
+	Obj    int    // fork: index of the child among this thread's forks; acquire/release/wg-*: ordinal of the lock / waitgroup by first appearance in the trace (one numbering for both); exit: 0
 	N      int64  // wg-add: the delta as a signed number (Done = -1); otherwise 0
 }
 
@@ -58,7 +59,11 @@ type thread struct {
 	fuel    int64
 	blocked string
 	done    bool
+	locked  bool // this thread holds m.mu
 }
+
+func (th *thread) unlock() { th.locked = false; th.m.mu.Unlock() }
+func (th *thread) lock()   { th.m.mu.Lock(); th.locked = true }
 
 type lockObj struct {
 	id, ord int
@@ -73,13 +78,19 @@ type wgObj struct {
 }
 
 type machine struct {
+	// mu is held by whoever touches the machine: the running thread (released
+	// around every scheduler request) or the scheduler goroutine inside pick and
+	// the blocking handler. It is never contended, since one thread runs at a
+	// time; it exists so that a -race build sees the hand-offs that simrt
+	// deliberately hides from the race detector and does not report the
+	// interpreter's own state.
+	mu      sync.Mutex
 	p       *Program
 	cells   []cell // cells[0] is never used: address 0 is null
 	threads []*thread
 	trace   []SyncEvent
-	nLock   int
-	nWg     int
-	nObj    int
+	nSync   int // locks and waitgroups that have appeared in the trace
+	nObj    int // locks and waitgroups created
 	race    string
 	stopped *stop
 	abort   bool
@@ -87,9 +98,11 @@ type machine struct {
 	disk    [][]byte
 	clock   uint64
 
-	guide       []SyncEvent
-	gpos        int
-	gLock, gWg  map[int]int // guide ordinal -> ordinal in this run
+	yieldHint bool // the running thread is about to wait (condWait, Sleep): the sequential policy lets another thread run
+
+	guide        []SyncEvent
+	gpos         int
+	gLock, gWg   map[int]int // guide ordinal -> ordinal in this run
 	myLock, myWg map[int]int // and back
 }
 
@@ -138,6 +151,10 @@ func (p *Program) Run(fn string, args []Value, opt Options) Result {
 			}
 		}
 		out.Outcome, out.Detail = "deadlock", strings.Join(w, "; ")
+		if m.gpos < len(m.guide) { // the guide expected progress here
+			out.Outcome = "diverged"
+			out.Detail = fmt.Sprintf("guide event %d (%v) cannot happen, no thread can run: %s", m.gpos, m.guide[m.gpos], out.Detail)
+		}
 	default:
 		out.Outcome, out.Detail = "step-limit", res.Detail
 	}
@@ -158,14 +175,19 @@ func (m *machine) newThread(path string, comps []int, parent *thread) *thread {
 // runThread is the root of every simulated thread: it turns the panics that
 // end a thread into the machine's outcome.
 func (m *machine) runThread(th *thread, body func()) {
+	th.lock()
 	defer func() {
-		th.done = true
 		r := recover()
+		if simrt.IsAbort(r) {
+			panic(r) // the scheduler is tearing the run down (deadlock, step cap); raised inside a request, mu not held
+		}
+		if !th.locked {
+			th.lock()
+		}
+		defer th.unlock()
+		th.done = true
 		if r == nil {
 			return
-		}
-		if simrt.IsAbort(r) {
-			panic(r) // the scheduler is tearing the run down (deadlock, step cap)
 		}
 		s, ok := r.(*stop)
 		if !ok {
@@ -196,24 +218,86 @@ const (
 	siteExt
 )
 
-// step is a scheduling point: the scheduler may run other threads here.
-func (th *thread) step(site int) {
-	simrt.Yield(site)
+func (th *thread) check() {
 	if th.m.abort {
 		panic(abortedStop)
 	}
 }
 
-// wait blocks until pred holds (evaluated by the scheduler while no thread runs).
-func (th *thread) wait(what string, pred func() bool) {
-	m := th.m
-	th.blocked = what
-	simrt.WaitUntil(what, func() bool { return m.abort || pred() })
-	th.blocked = ""
-	if m.abort {
+// step is a scheduling point: the scheduler may run other threads here.
+func (th *thread) step(site int) {
+	th.unlock()
+	simrt.Yield(site)
+	th.lock()
+	if th.m.abort {
 		panic(abortedStop)
 	}
 }
+
+// waitReq is the argument of the blocking scheduler request.
+type waitReq struct {
+	m         *machine
+	desc      string
+	ready     func() bool
+	act       func()
+	announced bool
+}
+
+// waitThenH runs on the scheduler goroutine: the thread stays blocked until
+// ready() holds; act() then runs in the same scheduler step, so the check and
+// its effect (taking a lock, observing a zero counter) are atomic.
+//
+//go:norace
+func waitThenH(s *simrt.Sim, t *simrt.Task, r *simrt.Req) simrt.Status {
+	w := r.X.(*waitReq)
+	w.m.mu.Lock()
+	defer w.m.mu.Unlock()
+	if !w.m.abort && !w.ready() {
+		if !w.announced {
+			w.announced = true
+			s.EvS(t, "wait", w.desc)
+		}
+		t.Ready = waitThenReady
+		t.BlockedOn = w.desc
+		return simrt.Block
+	}
+	if !w.m.abort {
+		w.act()
+	}
+	s.EvS(t, "proceed", w.desc)
+	return simrt.Done
+}
+
+//go:norace
+func waitThenReady(s *simrt.Sim, t *simrt.Task) bool {
+	w := t.ReqX().(*waitReq)
+	w.m.mu.Lock()
+	defer w.m.mu.Unlock()
+	return w.m.abort || w.ready()
+}
+
+// waitThen blocks the thread until ready() holds and then performs act()
+// atomically with that observation. Both run on the scheduler goroutine while
+// no thread runs; they must not panic.
+func (th *thread) waitThen(desc string, ready func() bool, act func()) {
+	th.blocked = desc
+	r := simrt.Req{X: &waitReq{m: th.m, desc: desc, ready: ready, act: act}}
+	th.unlock()
+	simrt.Call(waitThenH, &r)
+	th.lock()
+	th.blocked = ""
+	if th.m.abort {
+		panic(abortedStop)
+	}
+}
+
+func always() bool { return true }
+
+// syncStep performs a non-blocking synchronisation operation as one scheduler
+// step whose effect happens when the request is posted (like waitThen's), so
+// that there is a scheduling decision between it and the thread's next
+// operation: `release;; acquire` lets a waiting thread in.
+func (th *thread) syncStep(desc string, act func()) { th.waitThen(desc, always, act) }
 
 func (m *machine) fork(parent *thread, body func(*thread)) {
 	k := parent.forks
@@ -222,7 +306,10 @@ func (m *machine) fork(parent *thread, body func(*thread)) {
 	child.vc[child.idx] = 1
 	parent.tickClock()
 	m.event(parent, "fork", k, 0)
+	parent.check()
+	parent.unlock()
 	simrt.GoNamed(child.path, func() { m.runThread(child, func() { body(child) }) })
+	parent.lock()
 	if m.abort {
 		panic(abortedStop)
 	}
@@ -241,11 +328,15 @@ func lessPath(a, b []int) bool {
 
 // pick implements the guided policy while the guide lasts and the sequential
 // policy (keep running the current thread, else lowest path first) otherwise.
+// One concession to fairness: see yieldHint.
 func (m *machine) pick(opts []*simrt.Task, curFirst bool) int {
+	m.mu.Lock()
+	defer m.mu.Unlock()
 	if m.abort {
 		return 0
 	}
 	if m.gpos < len(m.guide) {
+		m.yieldHint = false
 		g := m.guide[m.gpos]
 		for i, t := range opts {
 			if m.threads[t.ID].path == g.Thread {
@@ -264,14 +355,27 @@ func (m *machine) pick(opts []*simrt.Task, curFirst bool) int {
 		m.fail(&stop{"diverged", fmt.Sprintf("guide event %d (%v): thread %s %s", m.gpos, g, g.Thread, state)})
 		return 0
 	}
-	if curFirst {
+	hint := m.yieldHint
+	m.yieldHint = false
+	if curFirst && !hint {
 		return 0
 	}
-	best := 0
+	// lowest path first; a thread that has just started to wait on a condition
+	// variable or to sleep lets the next thread (in path order, cyclically) run,
+	// so that wait loops end on the sequential schedule too
+	best, next := 0, -1
 	for i, t := range opts {
-		if lessPath(m.threads[t.ID].comps, m.threads[opts[best].ID].comps) {
+		c := m.threads[t.ID].comps
+		if lessPath(c, m.threads[opts[best].ID].comps) {
 			best = i
 		}
+		if curFirst && i > 0 && lessPath(m.threads[opts[0].ID].comps, c) &&
+			(next < 0 || lessPath(c, m.threads[opts[next].ID].comps)) {
+			next = i
+		}
+	}
+	if next >= 0 {
+		return next
 	}
 	return best
 }
@@ -279,8 +383,10 @@ func (m *machine) pick(opts []*simrt.Task, curFirst bool) int {
 // ---- synchronisation events -------------------------------------------------------
 
 // event appends a synchronisation event; on a guided run it must be the next
-// event of the guide. Lock and waitgroup ordinals of the guide are matched to
-// this run's by first appearance, so any consistent numbering is accepted.
+// event of the guide, else the run has diverged (it then ends at the thread's
+// next check of m.abort: event may run on the scheduler goroutine and so must
+// not panic). Lock and waitgroup ordinals of the guide are matched to this
+// run's by first appearance, so any consistent numbering is accepted.
 func (m *machine) event(th *thread, kind string, obj int, n int64) {
 	ev := SyncEvent{Thread: th.path, Kind: kind, Obj: obj, N: n}
 	m.trace = append(m.trace, ev)
@@ -300,7 +406,8 @@ func (m *machine) event(th *thread, kind string, obj int, n int64) {
 		}
 	}
 	if !ok {
-		panic(&stop{"diverged", fmt.Sprintf("guide event %d is (%v) but thread %s performed (%v)", m.gpos, g, th.path, ev)})
+		m.fail(&stop{"diverged", fmt.Sprintf("guide event %d is (%v) but thread %s performed (%v)", m.gpos, g, th.path, ev)})
+		return
 	}
 	m.gpos++
 }
